@@ -1604,6 +1604,20 @@ generate_pes_packet		(vbi_dvb_mux *		mx,
 			p_left = 184 - remainder;
 	}
 
+	if (unlikely (1 == p_left && last_du_size >= 257)) {
+		/* One byte is too small for a stuffing data unit and
+		   a raw VBI data unit with the maximum data_unit_length
+		   cannot take another stuffing byte. (The precaution
+		   in insert_raw_data_units() covers only the end of
+		   the buffer.) Stuff one more TS packet instead. */
+		if (unlikely (size + 1 + 184 > mx->max_packet_size)) {
+			err = VBI_ERR_BUFFER_OVERFLOW;
+			goto failed;
+		}
+
+		p_left += 184;
+	}
+
 	size += p_left;
 
 	encode_stuffing (p, p_left, last_du_size, fixed_length);
